@@ -17,6 +17,8 @@ ASSUMPTIONS = [
     "deadline: termination visible to the master no later than T + c_proto cycles after the request is on the arbitrated bus (c_proto = 0 for Wishbone); slave faults are fail-stop",
     "a response arriving in the expiry cycle itself may be replaced by the error termination (DESIGN 4b)",
     "time-outs T in {1,2,3} (quick) and {4,6} (thorough); at most one slave dies per run",
+    "soc.bus_errors runs (real SoCCore, checks/c11_soc.py): besides reset, the run may start with 2**32-2 forced into the bus error counter "
+    "(a value reachable by that many time-outs: the register depends only on itself and the error pulse); at most 3 timed-out requests per run, idle gaps 0..2",
 ]
 VARIANTS = {}
 
@@ -71,11 +73,9 @@ WT = {f"WaitTimer(t={t})": t for t in (1, 2, 3, 5, 8)}
 def configs(tier):
     c = [(n,) for n, (t, kw) in VARIANTS.items() if t == "quick" or tier == "thorough"]
     c += [(n,) for n in WT]
-    try:
-        from checks import c11_axi
-        c += c11_axi.configs(tier)
-    except ImportError:
-        pass
+    from checks import c11_axi, c11_soc
+    c += c11_axi.configs(tier)
+    c += c11_soc.configs(tier)
     return c
 
 
@@ -92,6 +92,9 @@ def run_config(cfg, seed, tier):
         return out
     if name.startswith("wb."):
         return _c6.run_config(cfg, seed, tier, table=VARIANTS)
+    if name.startswith("soc."):
+        from checks import c11_soc
+        return c11_soc.run_config(cfg, seed, tier)
     from checks import c11_axi
     return c11_axi.run_config(cfg, seed, tier)
 
@@ -103,5 +106,8 @@ def replay(rec):
         return dict(cfg=name, rule=rec["rule"], reproduced=rp["reproduced"])
     if name.startswith("wb."):
         return _c6.replay(rec, table=VARIANTS)
+    if name.startswith("soc."):
+        from checks import c11_soc
+        return c11_soc.replay(rec)
     from checks import c11_axi
     return c11_axi.replay(rec)
